@@ -91,8 +91,19 @@ pub struct Seed {
 fn capture() -> (Vec<Seed>, Vec<Seed>) {
     // once with small fragments (DATA_FRAG / NACK_FRAG / HEARTBEAT traffic of user and discovery writers) and once
     // with the default fragment size (discovery data as plain DATA: parameter-list payload seeds)
-    let (mut d, mut p) = capture_with(64);
-    let (d2, p2) = capture_with(1344);
+    let (mut d, mut p) = capture_with(64, "");
+    let (d2, p2) = capture_with(1344, "");
+    // participants with a domain tag: their announcements carry PID_DOMAIN_TAG (a string parameter the default
+    // configuration never sends). Only the participant announcements of this capture are kept
+    let (d3, p3) = capture_with(1344, "tag");
+    for mut s in d3.into_iter().filter(|s| s.name.contains("15/0100c2")) {
+        s.name = s.name.replace("dgram[", "dgram[tagged:");
+        d.push(s);
+    }
+    for mut s in p3.into_iter().filter(|s| s.name.starts_with("spdp[")) {
+        s.name = s.name.replace("spdp[", "spdp[tagged:");
+        p.push(s);
+    }
     for s in d2 {
         if !d.iter().any(|x| x.name == s.name) {
             d.push(s);
@@ -106,11 +117,11 @@ fn capture() -> (Vec<Seed>, Vec<Seed>) {
     (d, p)
 }
 
-fn capture_with(fragment_size: usize) -> (Vec<Seed>, Vec<Seed>) {
+fn capture_with(fragment_size: usize, domain_tag: &'static str) -> (Vec<Seed>, Vec<Seed>) {
     let mut cfg = RunConfig::default();
     cfg.fragment_size = fragment_size;
-    let out = run_one(&cfg, &[], |ctx: Ctx| async move {
-        let f = ctx.factory("", Some(200));
+    let out = run_one(&cfg, &[], move |ctx: Ctx| async move {
+        let f = ctx.factory(domain_tag, Some(200));
         let n1 = node::<KeyedData>(&f, 0, "T").await;
         let n2 = node::<KeyedData>(&f, 0, "T").await;
         let w = n2.publisher.create_datawriter::<KeyedData>(&n2.topic, QosKind::Specific(reliable_w(HistoryQosPolicyKind::KeepAll, Some(100))), NO_LISTENER, NO_STATUS).await.unwrap();
